@@ -33,7 +33,8 @@ func TestMain(m *testing.M) {
 			"A case is one workload; non-trivial = ≥ 5 writes of ≥ 2 value types, or a database other than 0, or a non-leader entry point; distinct = FNV-64 of the workload.",
 		"quiescence is decided by polling real raft timers: a bound that is exceeded with the nodes still changing is reported as inconclusive, nodes that are stable but different are a violation",
 		"no network partitions or message loss (no transport hook); leadership changes are not injected in this build",
-		"the nodes share one virtual clock that stands still, so relative expiries evaluate identically on every node")
+		"the nodes share one virtual clock that stands still, so relative expiries evaluate identically on every node",
+		"legs E and F: a raft snapshot on the leader (SAVE) between two batches followed by a late joiner; a cluster with a memory limit on every node (noeviction) whose collections grow in place past the limit")
 	common.Main(m, rec)
 }
 
